@@ -33,3 +33,43 @@ contract('parso.pgen2.generator.DFAState.add_arc', params={'self': 'ref:DFAState
                   'forall(lambda l: implies(l != label, (l in self.arcs) == old(l in self.arcs) and '
                   'implies(l in self.arcs, self.arcs[l] is old(self.arcs[l]))), kinds=dict(l="str"))'],
          raises=[], modifies=['arcs', '$maps'], lists=[], props=['C08'])
+
+
+# ---- _make_transition: a quoted label of the grammar text becomes the ReservedString of its *value* -- one shared object
+# per value whatever the spelling ('x' or "x"), created on first use, nothing else in the table touched
+import z3  # noqa: E402
+from pv.contract import specfn  # noqa: E402
+from pv.values import VStr, S  # noqa: E402
+
+_litval = z3.Function('literal_value', S, S)
+
+
+@specfn('literal_value')
+def sp_litval(eng, st, s):
+    """what ast.literal_eval gives for the text of a string literal"""
+    return VStr(_litval(s.t))
+
+
+class_fields('ReservedString', value='str')
+contract('ext:ast.literal_eval', params={'node_or_string': 'str'}, returns='str', trusted=True, raises=['ValueError', 'SyntaxError'],
+         ensures=['result == literal_value(node_or_string)'],
+         note='environment: the value of a string literal given as text (the grammar scanner only passes string tokens)')
+contract('parso.pgen2.generator.ReservedString.__init__', params={'self': 'ref:ReservedString', 'value': 'str'},
+         ensures=['self.value == value'], modifies=['self.value'], props=['C08'])
+contract('parso.pgen2.generator._make_transition#string',
+         params={'token_namespace': 'any', 'reserved_syntax_strings': 'map:str:ref:ReservedString', 'label': 'str'},
+         returns='ref:ReservedString',
+         requires=['reserved_syntax_strings is not None', 'allocated(reserved_syntax_strings)',
+                   'forall(lambda v: implies(v in reserved_syntax_strings, allocated(reserved_syntax_strings[v])), kinds=dict(v="str"))',
+                   'len(label) >= 1', 'label[0] == "\'" or label[0] == "\\""',
+                   'not label.startswith("\'\'\'")', 'not label.startswith("\\"\\"\\"")',
+                   'forall(lambda v: implies(v in reserved_syntax_strings, reserved_syntax_strings[v] is not None and '
+                   'reserved_syntax_strings[v].value == v), kinds=dict(v="str"))'],
+         ensures=['result is not None', 'literal_value(label) in reserved_syntax_strings',
+                  'result is reserved_syntax_strings[literal_value(label)]', 'result.value == literal_value(label)',
+                  'implies(old(literal_value(label) in reserved_syntax_strings), result is old(reserved_syntax_strings[literal_value(label)]))',
+                  'forall(lambda v: implies(v != literal_value(label), (v in reserved_syntax_strings) == old(v in reserved_syntax_strings) and '
+                  'implies(v in reserved_syntax_strings, reserved_syntax_strings[v] is old(reserved_syntax_strings[v]))), kinds=dict(v="str"))',
+                  'forall(lambda v: implies(v in reserved_syntax_strings, reserved_syntax_strings[v] is not None and '
+                  'reserved_syntax_strings[v].value == v), kinds=dict(v="str"))'],
+         raises=['ValueError', 'SyntaxError'], modifies=['value', '$maps'], lists=[], props=['C08'])
